@@ -10,7 +10,7 @@ Cmds == <<
   Trig(C("cpp_member", <<"@", "C", "int", "str">>)),      \* its doccomment (if any) contains the kwargs trigger string: no effect on members
   C("cpp_constructor", <<"@", "C", "int">>),
   C("function", <<"${@}", "_p_self">>), C("function", <<"${@}", "self", "_p_a", "a">>),      \* after the strip pattern both parameters are called "a": paired by position all the same
-  C("macro", <<"${@}", "self", "a">>),
+  C("macro", <<"${@}", "me", "a">>),        \* the instance argument is the second one, whatever it is called
   C("endfunction", <<>>), C("endmacro", <<>>),
   C("other", <<"hi">>),
   C("cmake_parse_arguments", <<"x", "\"\"", "\"\"", "\"\"">>)      \* in a member's implementation: no effect on the member
